@@ -127,7 +127,10 @@ def _work(args):
             if wallclock.monotonic() > deadline:
                 break
             rng = random.Random(case_seed(master, prop_id, index))
-            case = P.generate(rng, tier)
+            if hasattr(P, "generate_indexed"):
+                case = P.generate_indexed(index, rng, tier)
+            else:
+                case = P.generate(rng, tier)
             case["index"] = index
             agg.cases += 1
             hits = explore_case(P, case, rng, tier, agg)
